@@ -415,6 +415,8 @@ def table_check(ctx):
     except c14_crc_extract.ExtractError as e:
         ctx.proof_failures.append('translator: %s' % e)
         return
+    if c14_crc_extract.HOW['table'] != 'literal':
+        ctx.notes.append('CRC table obtained by ' + c14_crc_extract.HOW['table'])
     want = crc24q_table()
     bad = [i for i in range(min(len(vals), 256)) if vals[i] != want[i]]
     if len(vals) != 256 or bad:
